@@ -43,7 +43,7 @@ STUDY = 'owners/o/studies/s'
 
 
 def plan(tier, seed):
-  return {'shards': 12 if tier == 'quick' else 16, 'budget_s': 75 if tier == 'quick' else 1100}
+  return {'shards': 16, 'budget_s': 110 if tier == 'quick' else 1100}
 
 
 # ---------------------------------------------------------------------------
@@ -631,7 +631,7 @@ def run_shard(ctx):
   combos = all_combos() + OVER + TRIPLES
   quick = ctx.tier == 'quick'
   max_pre = 2 if quick else 3
-  cap = 60 if quick else 600
+  cap = 30 if quick else 600
   n_random = 6 if quick else 60
   items = []
   # backends interleaved: a run cut short by its time budget loses combos of both evenly
